@@ -1,3 +1,1036 @@
 (* C13 — proofs about Model/Verdict.v *)
-From Coq Require Import QArith Qround Qminmax Lia.
+From Coq Require Import QArith Qround Qminmax Qabs Lia Lqa Sorted Permutation.
 From Verif Require Import Prelude Model.Verdict.
+Open Scope Q_scope.
+
+(* ---------------------------------------------------------------- boolean comparisons on Q *)
+Lemma Qlt_bool_iff : forall a b, Qlt_bool a b = true <-> a < b.
+Proof.
+  intros a b. unfold Qlt_bool. rewrite negb_true_iff. split.
+  - intros H. apply Qnot_le_lt. intros Hle. apply Qle_bool_iff in Hle. congruence.
+  - intros H. destruct (Qle_bool b a) eqn:E; [|reflexivity].
+    apply Qle_bool_iff in E. exfalso. apply (Qlt_not_le _ _ H E).
+Qed.
+Lemma Qlt_bool_false : forall a b, Qlt_bool a b = false <-> b <= a.
+Proof.
+  intros a b. unfold Qlt_bool. rewrite negb_false_iff. apply Qle_bool_iff.
+Qed.
+
+(* ====================================================================================================
+   1. update_snr
+   ==================================================================================================== *)
+Definition same_raw (c d : rxch) : Prop :=
+  baud c = baud d /\ raw_osnr_bw c = raw_osnr_bw d /\ raw_snr_bw c = raw_snr_bw d /\
+  raw_osnr_01 c = raw_osnr_01 d /\ raw_snr_01 c = raw_snr_01 d.
+
+Lemma update1_raw : forall a c, same_raw (update1 a c) c.
+Proof. intros a c. repeat split. Qed.
+
+Lemma update1_idem : forall a b c, update1 a (update1 b c) = update1 a c.
+Proof. intros a b c. reflexivity. Qed.
+
+Lemma update_from_length : forall r k args, length (update_from k args r) = length r.
+Proof. induction r as [|c t IH]; intros k args; cbn; [reflexivity | now rewrite IH]. Qed.
+
+Lemma update_from_idem : forall r k args args',
+  update_from k args (update_from k args' r) = update_from k args r.
+Proof.
+  induction r as [|c t IH]; intros k args args'; cbn; [reflexivity|].
+  now rewrite IH, update1_idem.
+Qed.
+
+Lemma update_snr_length : forall r args r', update_snr r args = Ok r' -> length r' = length r.
+Proof.
+  intros r args r' H. unfold update_snr in H.
+  destruct (forallb (arg_fits (length r)) args); inversion H. apply update_from_length.
+Qed.
+
+(* one call after another one = the last call alone (same result, same error) *)
+Lemma update_snr_twice : forall r a r1 args,
+  update_snr r a = Ok r1 -> update_snr r1 args = update_snr r args.
+Proof.
+  intros r a r1 args H. pose proof (update_snr_length _ _ _ H) as L.
+  unfold update_snr in *. destruct (forallb (arg_fits (length r)) a); [|discriminate].
+  inversion H; subst r1. rewrite update_from_length.
+  destruct (forallb (arg_fits (length r)) args); [|reflexivity].
+  now rewrite update_from_idem.
+Qed.
+
+(* update_snr_hist_indep: after ANY history of update_snr calls, the figures produced by a further call depend only
+   on the raw figures and on the arguments of that call *)
+Lemma update_snr_hist_indep : forall h r r1 args,
+  run_updates r h = Ok r1 -> update_snr r1 args = update_snr r args.
+Proof.
+  induction h as [|a t IH]; intros r r1 args H; cbn in H.
+  - now inversion H.
+  - destruct (update_snr r a) as [r'|e] eqn:E; cbn in H; [|discriminate].
+    rewrite (IH _ _ args H). eapply update_snr_twice; eassumption.
+Qed.
+
+(* the raw figures survive any history *)
+Lemma update_from_raw : forall r k args, Forall2 same_raw (update_from k args r) r.
+Proof.
+  induction r as [|c t IH]; intros k args; cbn; constructor; [apply update1_raw | apply IH].
+Qed.
+Lemma same_raw_trans : forall a b c, same_raw a b -> same_raw b c -> same_raw a c.
+Proof. unfold same_raw; intros a b c H1 H2; intuition congruence. Qed.
+Lemma Forall2_same_raw_trans : forall a b c, Forall2 same_raw a b -> Forall2 same_raw b c -> Forall2 same_raw a c.
+Proof.
+  induction a as [|x a IH]; intros b c H1 H2; inversion H1; subst; inversion H2; subst; constructor.
+  - eapply same_raw_trans; eassumption.
+  - eapply IH; eassumption.
+Qed.
+Lemma Forall2_same_raw_refl : forall a, Forall2 same_raw a a.
+Proof. induction a; constructor; [repeat split | assumption]. Qed.
+Lemma run_updates_raw : forall h r r1, run_updates r h = Ok r1 -> Forall2 same_raw r1 r.
+Proof.
+  induction h as [|a t IH]; intros r r1 H; cbn in H.
+  - inversion H; subst. apply Forall2_same_raw_refl.
+  - destruct (update_snr r a) as [r'|e] eqn:E; cbn in H; [|discriminate].
+    eapply Forall2_same_raw_trans; [eapply IH; eassumption|].
+    unfold update_snr in E. destruct (forallb (arg_fits (length r)) a); inversion E. apply update_from_raw.
+Qed.
+
+(* the figures of channel k after one call *)
+Lemma update_from_nth : forall r k0 args k c,
+  nth_error r k = Some c -> nth_error (update_from k0 args r) k = Some (update1 (added_at args (k0 + k)) c).
+Proof.
+  induction r as [|x t IH]; intros k0 args k c H; destruct k; cbn in *; try discriminate.
+  - inversion H; subst. now rewrite Nat.add_0_r.
+  - rewrite (IH (S k0) args k c H). now rewrite Nat.add_succ_r.
+Qed.
+
+Lemma ref_bw_unit : ref_bw / ref_bw == 1.
+Proof. reflexivity. Qed.
+Lemma snr_sum_ref : forall x a, snr_sum x ref_bw a == x + a.
+Proof. intros x a. unfold snr_sum. rewrite ref_bw_unit. ring. Qed.
+
+Fixpoint contrib_at (l : list (option arg)) (k : nat) : Q :=
+  match l with
+  | [] => 0
+  | Some a :: t => arg_at a k + contrib_at t k
+  | None :: t => contrib_at t k
+  end.
+Lemma added_at_app : forall l1 l2 k, added_at (l1 ++ l2) k == added_at l1 k + added_at l2 k.
+Proof.
+  induction l1 as [|[a|] t IH]; intros l2 k; cbn.
+  - ring.
+  - rewrite IH. ring.
+  - apply IH.
+Qed.
+
+(* once_each: with the argument list the code builds (one entry per crossed ROADM — None for an express one — followed
+   by the transmitter OSNR), the receiver figure in 0.1 nm is  line + sum of the ROADM entries + tx, each exactly once *)
+Lemma once_each : forall r roadms tx r' k c,
+  update_snr r (roadms ++ [Some (Scalar tx)]) = Ok r' -> nth_error r k = Some c ->
+  exists c', nth_error r' k = Some c' /\ same_raw c' c /\
+    snr_01 c' == raw_snr_01 c + added_at roadms k + tx /\
+    osnr_01 c' == raw_osnr_01 c + added_at roadms k + tx /\
+    snr_bw c' == raw_snr_bw c + (added_at roadms k + tx) * (baud c / ref_bw) /\
+    osnr_bw c' == raw_osnr_bw c + (added_at roadms k + tx) * (baud c / ref_bw).
+Proof.
+  intros r roadms tx r' k c H Hk. unfold update_snr in H.
+  destruct (forallb (arg_fits (length r)) (roadms ++ [Some (Scalar tx)])); inversion H; subst r'.
+  eexists. split; [apply (update_from_nth r 0%nat _ k c Hk)|]. cbn [Nat.add].
+  split; [apply update1_raw|].
+  assert (A : added_at (roadms ++ [Some (Scalar tx)]) k == added_at roadms k + tx).
+  { rewrite added_at_app. cbn. ring. }
+  cbn [update1 snr_01 osnr_01 snr_bw osnr_bw]. rewrite !snr_sum_ref. unfold snr_sum. rewrite A.
+  repeat split; ring.
+Qed.
+
+(* an express ROADM (None) adds nothing; an add or drop stage adds its own value *)
+Lemma added_at_none : forall l k, added_at (None :: l) k = added_at l k.
+Proof. reflexivity. Qed.
+Lemma added_at_some : forall a l k, added_at (Some a :: l) k = arg_at a k + added_at l k.
+Proof. reflexivity. Qed.
+
+(* ====================================================================================================
+   2. penalties
+   ==================================================================================================== *)
+Definition asc (l : table) : Prop := StronglySorted (fun p q => fst p <= fst q) l.
+
+Lemma ins_pt_in : forall p l x, In x (ins_pt p l) <-> x = p \/ In x l.
+Proof.
+  induction l as [|y t IH]; intros x; cbn.
+  - intuition.
+  - destruct (Qlt_bool (fst y) (fst p)); cbn; [rewrite IH|]; intuition.
+Qed.
+Lemma sort_tab_in : forall l x, In x (sort_tab l) <-> In x l.
+Proof.
+  induction l as [|p t IH]; intros x; cbn; [tauto|].
+  unfold sort_tab in *. rewrite ins_pt_in, IH. intuition.
+Qed.
+Lemma ins_pt_asc : forall p l, asc l -> asc (ins_pt p l).
+Proof.
+  induction l as [|y t IH]; intros H; cbn.
+  - repeat constructor.
+  - inversion H as [|? ? Ht Hy]; subst.
+    destruct (Qlt_bool (fst y) (fst p)) eqn:E.
+    + apply Qlt_bool_iff in E. constructor; [apply IH; assumption|].
+      rewrite Forall_forall in *. intros x Hx. apply ins_pt_in in Hx. destruct Hx as [->|Hx].
+      * apply Qlt_le_weak; assumption.
+      * apply Hy; assumption.
+    + apply Qlt_bool_false in E. constructor; [assumption|].
+      constructor; [assumption|]. rewrite Forall_forall in *. intros x Hx.
+      eapply Qle_trans; [exact E | apply Hy; assumption].
+Qed.
+Lemma sort_tab_asc : forall l, asc (sort_tab l).
+Proof.
+  induction l as [|p t IH]; cbn; [constructor|]. apply ins_pt_asc. exact IH.
+Qed.
+Lemma normalise_asc : forall raw, asc (normalise raw).
+Proof. intros raw. apply sort_tab_asc. Qed.
+Lemma normalise_in : forall raw p,
+  In p (normalise raw) <-> In p raw \/ (p = (0, 0) /\ forallb (fun p => Qlt_bool 0 (fst p)) raw = true).
+Proof.
+  intros raw p. unfold normalise. rewrite sort_tab_in.
+  destruct (forallb (fun p0 => Qlt_bool 0 (fst p0)) raw); cbn; intuition congruence.
+Qed.
+
+(* below the first abscissa *)
+Lemma interp_below : forall x l, (forall p, In p l -> x < fst p) -> interp x l = PInf.
+Proof.
+  intros x [|[x0 y0] t] H; cbn; [reflexivity|].
+  assert (E : Qlt_bool x x0 = true) by (apply Qlt_bool_iff; apply (H (x0, y0)); now left).
+  now rewrite E.
+Qed.
+(* above the last abscissa *)
+Lemma interp_seg_above : forall x l, (forall p, In p l -> fst p < x) -> interp_seg x l = PInf.
+Proof.
+  intros x l. induction l as [|[x0 y0] t IH]; intros H; [reflexivity|].
+  cbn [interp_seg]. destruct t as [|[x1 y1] t'].
+  - assert (E : Qeq_bool x x0 = false).
+    { destruct (Qeq_bool x x0) eqn:E; [|reflexivity]. apply Qeq_bool_iff in E.
+      specialize (H (x0, y0) (or_introl eq_refl)). cbn in H. rewrite E in H. exfalso. exact (Qlt_irrefl _ H). }
+    now rewrite E.
+  - assert (E : Qlt_bool x x1 = false).
+    { apply Qlt_bool_false. apply Qlt_le_weak. apply (H (x1, y1)). right; now left. }
+    rewrite E. apply IH. intros p Hp. apply H. now right.
+Qed.
+Lemma interp_above : forall x l, (forall p, In p l -> fst p < x) -> interp x l = PInf.
+Proof.
+  intros x [|[x0 y0] t] H; [reflexivity|]. cbn [interp].
+  assert (E : Qlt_bool x x0 = false).
+  { apply Qlt_bool_false. apply Qlt_le_weak. apply (H (x0, y0)). now left. }
+  rewrite E. now apply interp_seg_above.
+Qed.
+(* inside [first, last] the penalty is finite *)
+Lemma interp_seg_inside : forall x l x0 y0, asc ((x0, y0) :: l) -> x0 <= x ->
+  (exists p, In p ((x0, y0) :: l) /\ x <= fst p) -> exists q, interp_seg x ((x0, y0) :: l) = PFin q.
+Proof.
+  intros x l. induction l as [|[x1 y1] t IH]; intros x0 y0 Hs Hlo [p [Hp Hhi]].
+  - destruct Hp as [<-|[]]. cbn in Hhi. cbn.
+    assert (E : Qeq_bool x x0 = true) by (apply Qeq_bool_iff; apply Qle_antisym; assumption).
+    rewrite E. eauto.
+  - cbn [interp_seg]. destruct (Qlt_bool x x1) eqn:E; [eauto|].
+    apply Qlt_bool_false in E. inversion Hs as [|? ? Ht Hy]; subst.
+    apply IH; [assumption | assumption |].
+    destruct Hp as [<-|Hp].
+    + exists (x1, y1). split; [now left|]. inversion Hy as [|? ? H01 _]; subst. cbn in *.
+      eapply Qle_trans; [exact Hhi | exact H01].
+    + exists p. split; assumption.
+Qed.
+Lemma interp_inside : forall x l, asc l ->
+  (exists p, In p l /\ fst p <= x) -> (exists p, In p l /\ x <= fst p) -> exists q, interp x l = PFin q.
+Proof.
+  intros x [|[x0 y0] t] Hs [p [Hp Hlo]] Hhi; [destruct Hp|]. cbn [interp].
+  assert (L : x0 <= x).
+  { destruct Hp as [<-|Hp]; [exact Hlo|]. inversion Hs as [|? ? Ht Hy]; subst.
+    rewrite Forall_forall in Hy. eapply Qle_trans; [apply (Hy p Hp) | exact Hlo]. }
+  assert (E : Qlt_bool x x0 = false) by (apply Qlt_bool_false; exact L).
+  rewrite E. now apply interp_seg_inside.
+Qed.
+
+(* penalty_outside_blocks, table level: an impairment value beyond every tabulated value (or below every value of the
+   normalised table) has an infinite penalty, whatever the other impairments *)
+Lemma one_pen_above : forall raw x, raw <> [] -> (forall p, In p raw -> fst p < x) -> one_pen raw x = PInf.
+Proof.
+  intros raw x Hne H. unfold one_pen. destruct raw as [|p0 t] eqn:E; [congruence|]. rewrite <- E in *.
+  apply interp_above. intros p Hp. apply normalise_in in Hp. destruct Hp as [Hp|[-> Hall]]; [now apply H|].
+  cbn. rewrite forallb_forall in Hall. subst raw.
+  specialize (Hall p0 (or_introl eq_refl)). apply Qlt_bool_iff in Hall.
+  eapply Qlt_trans; [exact Hall | apply H; now left].
+Qed.
+Lemma one_pen_below : forall raw x, raw <> [] -> (forall p, In p raw -> x < fst p) -> x < 0 -> one_pen raw x = PInf.
+Proof.
+  intros raw x Hne H H0. unfold one_pen. destruct raw as [|p0 t] eqn:E; [congruence|]. rewrite <- E in *.
+  apply interp_below. intros p Hp. apply normalise_in in Hp. destruct Hp as [Hp|[-> _]]; [now apply H | exact H0].
+Qed.
+Lemma one_pen_inside : forall raw x, raw <> [] ->
+  (exists p, In p (normalise raw) /\ fst p <= x) -> (exists p, In p (normalise raw) /\ x <= fst p) ->
+  exists q, one_pen raw x = PFin q.
+Proof.
+  intros raw x Hne Hlo Hhi. unfold one_pen. destruct raw as [|p0 t] eqn:E; [congruence|]. rewrite <- E in *.
+  apply interp_inside; [apply normalise_asc | assumption | assumption].
+Qed.
+
+Lemma pen_add_inf_l : forall b, pen_add PInf b = PInf.
+Proof. reflexivity. Qed.
+Lemma pen_add_inf_r : forall a, pen_add a PInf = PInf.
+Proof. destruct a; reflexivity. Qed.
+Lemma total_pen_inf : forall T cd pmd pdl,
+  one_pen (t_cd T) cd = PInf \/ one_pen (t_pmd T) pmd = PInf \/ one_pen (t_pdl T) pdl = PInf ->
+  total_pen T cd pmd pdl = PInf.
+Proof.
+  intros T cd pmd pdl [H|[H|H]]; unfold total_pen; rewrite H; cbn;
+    repeat (rewrite ?pen_add_inf_l, ?pen_add_inf_r); reflexivity.
+Qed.
+
+(* ====================================================================================================
+   3. metric and fixed-mode verdict
+   ==================================================================================================== *)
+Definition met_le (a b : met) : Prop :=
+  match a, b with
+  | MNegInf, _ => True
+  | MFin _, MNegInf => False
+  | MFin x, MFin y => x <= y
+  end.
+Lemma met_lt_false_iff : forall a b, met_lt a b = false <-> met_le b a.
+Proof.
+  intros [|x] [|y]; cbn.
+  - split; auto.
+  - split; [discriminate | intros []].
+  - split; auto.
+  - apply Qlt_bool_false.
+Qed.
+Lemma met_lt_true_iff : forall a b, met_lt a b = true <-> ~ met_le b a.
+Proof.
+  intros a b. rewrite <- met_lt_false_iff. destruct (met_lt a b); split; congruence.
+Qed.
+Lemma met_le_refl : forall a, met_le a a.
+Proof. intros [|x]; cbn; [exact I | apply Qle_refl]. Qed.
+Lemma met_le_trans : forall a b c, met_le a b -> met_le b c -> met_le a c.
+Proof.
+  intros [|x] [|y] [|z]; cbn; try tauto. apply Qle_trans.
+Qed.
+Lemma met_min_le_l : forall a b, met_le (met_min a b) a.
+Proof. intros [|x] [|y]; cbn; try exact I. apply Q.le_min_l. Qed.
+Lemma met_min_le_r : forall a b, met_le (met_min a b) b.
+Proof. intros [|x] [|y]; cbn; try exact I. apply Q.le_min_r. Qed.
+
+Definition met_eq (a b : met) : Prop :=
+  match a, b with MNegInf, MNegInf => True | MFin x, MFin y => x == y | _, _ => False end.
+Lemma met_min_attained : forall a b, met_eq (met_min a b) a \/ met_eq (met_min a b) b.
+Proof.
+  intros [|x] [|y]; cbn; auto.
+  destruct (Q.min_spec x y) as [[_ E]|[_ E]]; rewrite E; [left|right]; reflexivity.
+Qed.
+Lemma met_eq_le : forall a b, met_eq a b -> met_le a b.
+Proof. intros [|x] [|y]; cbn; try tauto. intros E; rewrite E; apply Qle_refl. Qed.
+Lemma met_eq_refl : forall a, met_eq a a.
+Proof. intros [|x]; cbn; [exact I | reflexivity]. Qed.
+Lemma met_eq_trans : forall a b c, met_eq a b -> met_eq b c -> met_eq a c.
+Proof. intros [|x] [|y] [|z]; cbn; try tauto. intros H1 H2; now rewrite H1. Qed.
+Lemma met_le_eq_l : forall a b c, met_eq a b -> met_le b c -> met_le a c.
+Proof. intros a b c H1 H2. eapply met_le_trans; [apply met_eq_le; exact H1 | exact H2]. Qed.
+
+(* fold_left met_min t x is a lower bound of x :: t and is (equal to) one of its elements: the worst channel *)
+Lemma fold_min_spec : forall t x,
+  (forall y, In y (x :: t) -> met_le (fold_left met_min t x) y) /\
+  (exists y, In y (x :: t) /\ met_eq (fold_left met_min t x) y).
+Proof.
+  induction t as [|z t IH]; intros x; cbn [fold_left].
+  - split.
+    + intros y [<-|[]]. apply met_le_refl.
+    + exists x. split; [now left | apply met_eq_refl].
+  - destruct (IH (met_min x z)) as [L [y [Hy E]]]. split.
+    + intros w [<-|[<-|Hw]].
+      * eapply met_le_trans; [apply L; now left | apply met_min_le_l].
+      * eapply met_le_trans; [apply L; now left | apply met_min_le_r].
+      * apply L. now right.
+    + destruct Hy as [<-|Hy].
+      * destruct (met_min_attained x z) as [A|A].
+        -- exists x. split; [now left | eapply met_eq_trans; eassumption].
+        -- exists z. split; [right; now left | eapply met_eq_trans; eassumption].
+      * exists y. split; [right; now right | exact E].
+Qed.
+
+(* the per-channel values of the metric *)
+Lemma chan_mets_spec : forall T g cd pmd pdl l,
+  chan_mets T g cd pmd pdl = Ok l ->
+  length l = length g /\
+  forall k gk ck pk dk, nth_error g k = Some gk -> nth_error cd k = Some ck -> nth_error pmd k = Some pk ->
+    nth_error pdl k = Some dk -> nth_error l k = Some (met_sub gk (total_pen T ck pk dk)).
+Proof.
+  intros T. induction g as [|g0 g IH]; intros cd pmd pdl l H;
+    destruct cd as [|c0 cd]; destruct pmd as [|p0 pmd]; destruct pdl as [|d0 pdl]; cbn in H; try discriminate.
+  - inversion H; subst. split; [reflexivity|]. intros [|k] ? ? ? ? Hk; discriminate.
+  - destruct (chan_mets T g cd pmd pdl) as [r|e] eqn:E; cbn in H; [|discriminate].
+    inversion H; subst l. destruct (IH _ _ _ _ E) as [L N]. split; [cbn; now rewrite L|].
+    intros [|k] gk ck pk dk H1 H2 H3 H4; cbn in *.
+    + now inversion H1; inversion H2; inversion H3; inversion H4; subst.
+    + now apply N.
+Qed.
+
+(* round-half-even: within half a unit, monotone *)
+Lemma rhe_cases : forall q, let f := Qfloor q in
+  (round_half_even q = f /\ q - inject_Z f <= 1 # 2) \/ (round_half_even q = (f + 1)%Z /\ 1 # 2 <= q - inject_Z f).
+Proof.
+  intros q f. unfold round_half_even. fold f.
+  destruct (Qcompare_spec (q - inject_Z f) (1 # 2)) as [E|L|G].
+  - destruct (Z.even f); [left|right]; split; try reflexivity; rewrite E; apply Qle_refl.
+  - left. split; [reflexivity | apply Qlt_le_weak; exact L].
+  - right. split; [reflexivity | apply Qlt_le_weak; exact G].
+Qed.
+Lemma floor_bounds : forall q, inject_Z (Qfloor q) <= q /\ q < inject_Z (Qfloor q) + 1.
+Proof.
+  intros q. split; [apply Qfloor_le|].
+  pose proof (Qlt_floor q) as H. rewrite inject_Z_plus in H. exact H.
+Qed.
+Lemma rhe_close : forall q, Qabs (inject_Z (round_half_even q) - q) <= 1 # 2.
+Proof.
+  intros q. destruct (floor_bounds q) as [B1 B2].
+  destruct (rhe_cases q) as [[-> H]|[-> H]]; apply Qabs_Qle_condition; split.
+  - lra.
+  - lra.
+  - rewrite inject_Z_plus. change (inject_Z 1) with 1. lra.
+  - rewrite inject_Z_plus. change (inject_Z 1) with 1. lra.
+Qed.
+Lemma rhe_mono : forall a b, a <= b -> (round_half_even a <= round_half_even b)%Z.
+Proof.
+  intros a b Hab.
+  pose proof (Qfloor_resp_le _ _ Hab) as Hf.
+  destruct (floor_bounds a) as [A1 A2]. destruct (floor_bounds b) as [B1 B2].
+  destruct (Z.eq_dec (Qfloor a) (Qfloor b)) as [E|NE].
+  - unfold round_half_even. rewrite <- E.
+    destruct (Qcompare_spec (a - inject_Z (Qfloor a)) (1 # 2)) as [Ea|La|Ga];
+      destruct (Qcompare_spec (b - inject_Z (Qfloor a)) (1 # 2)) as [Eb|Lb|Gb];
+      try (destruct (Z.even (Qfloor a))); try lia; exfalso; lra.
+  - assert (Hlt : (Qfloor a + 1 <= Qfloor b)%Z) by lia.
+    destruct (rhe_cases a) as [[-> _]|[-> _]]; destruct (rhe_cases b) as [[-> _]|[-> _]]; lia.
+Qed.
+Lemma round2_mono : forall a b, a <= b -> round2 a <= round2 b.
+Proof.
+  intros a b H. unfold round2. apply Qmult_le_compat_r; [|discriminate].
+  rewrite <- Zle_Qle. apply rhe_mono. apply Qmult_le_compat_r; [exact H | discriminate].
+Qed.
+Lemma round2_close : forall q, Qabs (round2 q - q) <= 1 # 200.
+Proof.
+  intros q. unfold round2. pose proof (rhe_close (q * 100)) as H.
+  apply Qabs_Qle_condition in H. destruct H as [H1 H2].
+  apply Qabs_Qle_condition. split.
+  - apply Qmult_le_r with (z := 100); [reflexivity|]. field_simplify. field_simplify in H1. lra.
+  - apply Qmult_le_r with (z := 100); [reflexivity|]. field_simplify. field_simplify in H2. lra.
+Qed.
+Lemma met_round2_mono : forall a b, met_le a b -> met_le (met_round2 a) (met_round2 b).
+Proof. intros [|x] [|y]; cbn; try tauto. apply round2_mono. Qed.
+Lemma round2_comp : forall a b, a == b -> round2 a == round2 b.
+Proof.
+  intros a b E. apply Qle_antisym; apply round2_mono; rewrite E; apply Qle_refl.
+Qed.
+Lemma met_round2_eq : forall a b, met_eq a b -> met_eq (met_round2 a) (met_round2 b).
+Proof. intros [|x] [|y]; cbn; try tauto. apply round2_comp. Qed.
+
+(* metric = round2 of the worst channel *)
+Lemma metric_spec : forall T f m, metric T f = Ok m ->
+  exists l, chan_mets T (f_g01 f) (f_cd f) (f_pmd f) (f_pdl f) = Ok l /\ l <> [] /\
+    (forall y, In y l -> met_le m (met_round2 y)) /\ (exists y, In y l /\ met_eq m (met_round2 y)).
+Proof.
+  intros T f m H. unfold metric in H.
+  destruct (chan_mets T (f_g01 f) (f_cd f) (f_pmd f) (f_pdl f)) as [l|e] eqn:E; cbn in H; [|discriminate].
+  exists l. split; [reflexivity|]. destruct l as [|x t]; cbn in H; [discriminate|].
+  inversion H; subst m. split; [discriminate|].
+  destruct (fold_min_spec t x) as [L [y [Hy A]]]. split.
+  - intros w Hw. apply met_round2_mono. apply L. exact Hw.
+  - exists y. split; [exact Hy | apply met_round2_eq; exact A].
+Qed.
+
+(* a channel with an infinite penalty makes the metric -inf, so the request is blocked / the mode is not selected,
+   whatever the threshold *)
+Lemma met_le_neginf : forall m, met_le m MNegInf -> m = MNegInf.
+Proof. intros [|x]; cbn; [reflexivity | tauto]. Qed.
+Lemma metric_neginf : forall T f m k gk ck pk dk, metric T f = Ok m ->
+  nth_error (f_g01 f) k = Some gk -> nth_error (f_cd f) k = Some ck -> nth_error (f_pmd f) k = Some pk ->
+  nth_error (f_pdl f) k = Some dk -> total_pen T ck pk dk = PInf -> m = MNegInf.
+Proof.
+  intros T f m k gk ck pk dk H H1 H2 H3 H4 HP.
+  destruct (metric_spec _ _ _ H) as [l [E [_ [L _]]]].
+  destruct (chan_mets_spec _ _ _ _ _ _ E) as [_ N].
+  specialize (N k gk ck pk dk H1 H2 H3 H4). rewrite HP in N. cbn in N.
+  apply met_le_neginf. apply (L MNegInf). eapply nth_error_In; exact N.
+Qed.
+Lemma penalty_outside_blocks : forall T f m k gk ck pk dk thr, metric T f = Ok m ->
+  nth_error (f_g01 f) k = Some gk -> nth_error (f_cd f) k = Some ck -> nth_error (f_pmd f) k = Some pk ->
+  nth_error (f_pdl f) k = Some dk ->
+  one_pen (t_cd T) ck = PInf \/ one_pen (t_pmd T) pk = PInf \/ one_pen (t_pdl T) dk = PInf ->
+  blocked_fixed thr m = true /\ passes_auto thr m = false.
+Proof.
+  intros T f m k gk ck pk dk thr H H1 H2 H3 H4 HP.
+  rewrite (metric_neginf _ _ _ _ _ _ _ _ H H1 H2 H3 H4 (total_pen_inf _ _ _ _ HP)). split; reflexivity.
+Qed.
+
+(* verdict_fixed_spec: not blocked  <->  the rounded worst-channel metric of the forward direction, and of the reverse
+   direction when there is one, is at least the threshold (equality accepted); the only reason is MODE_NOT_FEASIBLE *)
+Lemma verdict_fixed_spec : forall thr fwd rev,
+  (decide_fixed thr fwd rev = None <->
+     met_le (MFin thr) fwd /\ (forall r, rev = Some r -> met_le (MFin thr) r)) /\
+  (decide_fixed thr fwd rev = None \/ decide_fixed thr fwd rev = Some MODE_NOT_FEASIBLE).
+Proof.
+  intros thr fwd rev. unfold decide_fixed, blocked_fixed.
+  destruct (met_lt fwd (MFin thr)) eqn:E1.
+  - apply met_lt_true_iff in E1. split; [|now right]. split; [discriminate | tauto].
+  - apply met_lt_false_iff in E1. destruct rev as [r|].
+    + destruct (met_lt r (MFin thr)) eqn:E2.
+      * apply met_lt_true_iff in E2. split; [|now right]. split; [discriminate|].
+        intros [_ H]. exfalso. apply E2. now apply H.
+      * apply met_lt_false_iff in E2. split; [|now left]. split; [|reflexivity].
+        intros _. split; [exact E1|]. intros r' [= <-]. exact E2.
+    + split; [|now left]. split; [|reflexivity]. intros _. split; [exact E1 | discriminate].
+Qed.
+
+(* ====================================================================================================
+   4. the mode loop
+   ==================================================================================================== *)
+(* ---- order on (baud, offset) / (bit rate, offset) pairs ---- *)
+Definition iter_gt (a b : iter) : Prop := fst b < fst a \/ (fst a == fst b /\ snd b < snd a).
+Lemma iter_gtb_iff : forall a b, iter_gtb a b = true <-> iter_gt a b.
+Proof.
+  intros a b. unfold iter_gtb, iter_gt. rewrite orb_true_iff, andb_true_iff, !Qlt_bool_iff, Qeq_bool_iff. tauto.
+Qed.
+Lemma iter_gtb_false : forall a b, iter_gtb a b = false <-> ~ iter_gt a b.
+Proof. intros a b. rewrite <- iter_gtb_iff. destruct (iter_gtb a b); split; congruence. Qed.
+Lemma iter_eqb_iff : forall a b, iter_eqb a b = true <-> fst a == fst b /\ snd a == snd b.
+Proof. intros a b. unfold iter_eqb. rewrite andb_true_iff, !Qeq_bool_iff. tauto. Qed.
+Lemma iter_eqb_false : forall a b, iter_eqb a b = false <-> ~ (fst a == fst b /\ snd a == snd b).
+Proof. intros a b. rewrite <- iter_eqb_iff. destruct (iter_eqb a b); split; congruence. Qed.
+Lemma iter_eqb_refl : forall a, iter_eqb a a = true.
+Proof. intros a. apply iter_eqb_iff. split; reflexivity. Qed.
+Lemma iter_eqb_sym : forall a b, iter_eqb a b = true -> iter_eqb b a = true.
+Proof. intros a b H. apply iter_eqb_iff in H. apply iter_eqb_iff. destruct H; split; symmetry; assumption. Qed.
+Lemma iter_eqb_trans : forall a b c, iter_eqb a b = true -> iter_eqb b c = true -> iter_eqb a c = true.
+Proof.
+  intros a b c H1 H2. apply iter_eqb_iff in H1, H2. apply iter_eqb_iff.
+  destruct H1 as [A1 A2], H2 as [B1 B2]. split; [now rewrite A1 | now rewrite A2].
+Qed.
+Lemma iter_gt_trans : forall a b c, iter_gt a b -> iter_gt b c -> iter_gt a c.
+Proof. unfold iter_gt. intros [a1 a2] [b1 b2] [c1 c2]; cbn. intros H1 H2. lra. Qed.
+Lemma iter_gt_asym : forall a b, iter_gt a b -> ~ iter_gt b a.
+Proof. unfold iter_gt. intros [a1 a2] [b1 b2]; cbn. intros H1 H2. lra. Qed.
+Lemma iter_gt_irrefl : forall a, ~ iter_gt a a.
+Proof. intros a H. exact (iter_gt_asym _ _ H H). Qed.
+Lemma iter_total : forall a b, ~ iter_gt a b -> ~ (fst b == fst a /\ snd b == snd a) -> iter_gt b a.
+Proof.
+  unfold iter_gt. intros [a1 a2] [b1 b2]; cbn. intros H1 H2.
+  destruct (Q_dec a1 b1) as [[L|G]|E]; [left; exact L | exfalso; apply H1; left; exact G |].
+  destruct (Q_dec a2 b2) as [[L|G]|E2].
+  - right. split; [symmetry; exact E | exact L].
+  - exfalso. apply H1. right. split; assumption.
+  - exfalso. apply H2. split; symmetry; assumption.
+Qed.
+Lemma iter_nge_trans : forall a b c, ~ iter_gt b a -> ~ iter_gt c b -> ~ iter_gt c a.
+Proof. unfold iter_gt. intros [a1 a2] [b1 b2] [c1 c2]; cbn. intros H1 H2 H3. lra. Qed.
+
+(* ---- generic descending insertion sort ---- *)
+Fixpoint ins {A} (gtb : A -> A -> bool) (x : A) (l : list A) : list A :=
+  match l with [] => [x] | y :: t => if gtb y x then y :: ins gtb x t else x :: l end.
+Definition isort {A} (gtb : A -> A -> bool) (l : list A) : list A := fold_right (ins gtb) [] l.
+Lemma ins_in : forall A (gtb : A -> A -> bool) x l z, In z (ins gtb x l) <-> z = x \/ In z l.
+Proof.
+  induction l as [|y t IH]; intros z; cbn; [intuition|].
+  destruct (gtb y x); cbn; [rewrite IH|]; intuition.
+Qed.
+Lemma isort_in : forall A (gtb : A -> A -> bool) l z, In z (isort gtb l) <-> In z l.
+Proof.
+  induction l as [|x t IH]; intros z; cbn; [tauto|]. rewrite ins_in, IH. intuition.
+Qed.
+Lemma ins_iter_eq : forall x l, ins_iter x l = ins iter_gtb x l.
+Proof. induction l as [|y t IH]; cbn; [reflexivity | now rewrite IH]. Qed.
+Lemma sort_iters_eq : forall l, sort_iters l = isort iter_gtb l.
+Proof. induction l as [|x t IH]; cbn; [reflexivity|]. unfold sort_iters in *. cbn. now rewrite ins_iter_eq, IH. Qed.
+Lemma ins_mode_eq : forall x l, ins_mode x l = ins key_gtb x l.
+Proof. induction l as [|y t IH]; cbn; [reflexivity | now rewrite IH]. Qed.
+Lemma sort_modes_eq : forall l, sort_modes l = isort key_gtb l.
+Proof. induction l as [|x t IH]; cbn; [reflexivity|]. unfold sort_modes in *. cbn. now rewrite ins_mode_eq, IH. Qed.
+
+(* non-increasing (stable) result: for a relation that is asymmetric and whose complement is transitive *)
+Lemma ins_sorted : forall A (gtb : A -> A -> bool),
+  (forall a b, gtb a b = true -> gtb b a = false) ->
+  (forall a b c, gtb b a = false -> gtb c b = false -> gtb c a = false) ->
+  forall x l, StronglySorted (fun a b => gtb b a = false) l -> StronglySorted (fun a b => gtb b a = false) (ins gtb x l).
+Proof.
+  intros A gtb Hasym Htr x. induction l as [|y t IH]; intros H; cbn.
+  - repeat constructor.
+  - inversion H as [|? ? Ht Hy]; subst. destruct (gtb y x) eqn:E.
+    + constructor; [apply IH; exact Ht|]. rewrite Forall_forall in *. intros z Hz.
+      apply ins_in in Hz. destruct Hz as [->|Hz]; [apply Hasym; exact E | apply Hy; exact Hz].
+    + constructor; [exact H|]. constructor; [exact E|]. rewrite Forall_forall in *. intros z Hz.
+      eapply Htr; [exact E | apply Hy; exact Hz].
+Qed.
+Lemma isort_sorted : forall A (gtb : A -> A -> bool),
+  (forall a b, gtb a b = true -> gtb b a = false) ->
+  (forall a b c, gtb b a = false -> gtb c b = false -> gtb c a = false) ->
+  forall l, StronglySorted (fun a b => gtb b a = false) (isort gtb l).
+Proof.
+  intros A gtb H1 H2. induction l as [|x t IH]; cbn; [constructor | apply ins_sorted; assumption].
+Qed.
+(* strictly decreasing result when the elements are pairwise different *)
+Lemma ins_strict : forall A (gtb eqb : A -> A -> bool),
+  (forall a b c, gtb a b = true -> gtb b c = true -> gtb a c = true) ->
+  (forall a b, gtb a b = false -> eqb b a = false -> gtb b a = true) ->
+  forall x l, Forall (fun y => eqb x y = false) l ->
+    StronglySorted (fun a b => gtb a b = true) l -> StronglySorted (fun a b => gtb a b = true) (ins gtb x l).
+Proof.
+  intros A gtb eqb Htr Htot x. induction l as [|y t IH]; intros Hd H; cbn.
+  - repeat constructor.
+  - inversion H as [|? ? Ht Hy]; subst. inversion Hd as [|? ? Hxy Hdt]; subst. destruct (gtb y x) eqn:E.
+    + constructor; [apply IH; assumption|]. rewrite Forall_forall in *. intros z Hz.
+      apply ins_in in Hz. destruct Hz as [->|Hz]; [exact E | apply Hy; exact Hz].
+    + assert (G : gtb x y = true) by (apply Htot; assumption).
+      constructor; [exact H|]. constructor; [exact G|]. rewrite Forall_forall in *. intros z Hz.
+      eapply Htr; [exact G | apply Hy; exact Hz].
+Qed.
+
+Lemma key_gtb_asym : forall a b, key_gtb a b = true -> key_gtb b a = false.
+Proof.
+  unfold key_gtb. intros a b H. apply iter_gtb_iff in H. apply iter_gtb_false. now apply iter_gt_asym.
+Qed.
+Lemma key_nge_trans : forall a b c, key_gtb b a = false -> key_gtb c b = false -> key_gtb c a = false.
+Proof.
+  unfold key_gtb. intros a b c H1 H2. apply iter_gtb_false in H1, H2. apply iter_gtb_false.
+  eapply iter_nge_trans; eassumption.
+Qed.
+Lemma key_gtb_irrefl : forall a, key_gtb a a = false.
+Proof. intros a. unfold key_gtb. apply iter_gtb_false. apply iter_gt_irrefl. Qed.
+
+(* ---- the modes explored under one propagation ---- *)
+Lemma modes_of_in : forall lib sp br m,
+  In m (modes_of lib sp br) <-> In m lib /\ m_baud m == br /\ fits sp m = true.
+Proof.
+  intros lib sp br m. unfold modes_of. rewrite sort_modes_eq, isort_in, filter_In, andb_true_iff, Qeq_bool_iff. tauto.
+Qed.
+(* sorted by (bit rate, offset), highest first; equal keys keep the library order (insertion is stable) *)
+Lemma modes_of_sorted : forall lib sp br,
+  StronglySorted (fun a b => key_gtb b a = false) (modes_of lib sp br).
+Proof.
+  intros. unfold modes_of. rewrite sort_modes_eq. apply isort_sorted; [apply key_gtb_asym | apply key_nge_trans].
+Qed.
+
+(* ---- the propagations ---- *)
+Lemma dedup_in : forall l x, In x (dedup l) -> In x l.
+Proof.
+  induction l as [|y t IH]; intros x H; cbn in *; [exact H|].
+  destruct (existsb (iter_eqb y) t); [right; now apply IH|].
+  destruct H as [<-|H]; [now left | right; now apply IH].
+Qed.
+Lemma dedup_repr : forall l x, In x l -> exists y, In y (dedup l) /\ iter_eqb x y = true.
+Proof.
+  induction l as [|z t IH]; intros x H; [destruct H|]. cbn.
+  destruct (existsb (iter_eqb z) t) eqn:E.
+  - destruct H as [<-|H]; [|now apply IH].
+    apply existsb_exists in E. destruct E as [w [Hw Ew]].
+    destruct (IH w Hw) as [y [Hy Ey]]. exists y. split; [exact Hy | eapply iter_eqb_trans; eassumption].
+  - destruct H as [<-|H].
+    + exists z. split; [now left | apply iter_eqb_refl].
+    + destruct (IH x H) as [y [Hy Ey]]. exists y. split; [now right | exact Ey].
+Qed.
+Lemma dedup_distinct : forall l, ForallOrdPairs (fun a b => iter_eqb a b = false) (dedup l).
+Proof.
+  induction l as [|z t IH]; cbn; [constructor|].
+  destruct (existsb (iter_eqb z) t) eqn:E; [exact IH|].
+  constructor; [|exact IH]. rewrite Forall_forall. intros y Hy. apply dedup_in in Hy.
+  destruct (iter_eqb z y) eqn:F; [|reflexivity].
+  assert (existsb (iter_eqb z) t = true) by (apply existsb_exists; eauto). congruence.
+Qed.
+Lemma iter_gtb_trans : forall a b c, iter_gtb a b = true -> iter_gtb b c = true -> iter_gtb a c = true.
+Proof. intros a b c H1 H2. apply iter_gtb_iff in H1, H2. apply iter_gtb_iff. eapply iter_gt_trans; eassumption. Qed.
+Lemma iter_gtb_total : forall a b, iter_gtb a b = false -> iter_eqb b a = false -> iter_gtb b a = true.
+Proof.
+  intros a b H1 H2. apply iter_gtb_false in H1. apply iter_eqb_false in H2. apply iter_gtb_iff. now apply iter_total.
+Qed.
+Lemma isort_strict : forall l, ForallOrdPairs (fun a b => iter_eqb a b = false) l ->
+  StronglySorted (fun a b => iter_gtb a b = true) (isort iter_gtb l).
+Proof.
+  induction l as [|x t IH]; intros H; cbn; [constructor|].
+  inversion H as [|? ? Hx Ht]; subst.
+  apply (ins_strict _ iter_gtb iter_eqb iter_gtb_trans iter_gtb_total); [|apply IH; exact Ht].
+  rewrite Forall_forall in *. intros y Hy. apply isort_in in Hy. now apply Hx.
+Qed.
+(* strictly decreasing: baud rate first, then offset; no (baud, offset) value occurs twice *)
+Lemma iters_sorted : forall lib sp, StronglySorted (fun a b => iter_gtb a b = true) (iters lib sp).
+Proof. intros. unfold iters. rewrite sort_iters_eq. apply isort_strict. apply dedup_distinct. Qed.
+Lemma iters_in : forall lib sp it, In it (iters lib sp) ->
+  exists m, In m lib /\ fits sp m = true /\ it = (m_baud m, m_off m).
+Proof.
+  intros lib sp it H. unfold iters in H. rewrite sort_iters_eq in H. apply isort_in in H. apply dedup_in in H.
+  apply in_map_iff in H. destruct H as [m [E Hm]]. apply filter_In in Hm. exists m. intuition.
+Qed.
+Lemma iters_repr : forall lib sp m, In m lib -> fits sp m = true ->
+  exists it, In it (iters lib sp) /\ iter_eqb (m_baud m, m_off m) it = true.
+Proof.
+  intros lib sp m Hm Hf.
+  destruct (dedup_repr (map (fun m => (m_baud m, m_off m)) (filter (fits sp) lib)) (m_baud m, m_off m)) as [y [Hy Ey]].
+  - apply in_map_iff. exists m. split; [reflexivity|]. apply filter_In. split; assumption.
+  - exists y. split; [|exact Ey]. unfold iters. rewrite sort_iters_eq. apply isort_in. exact Hy.
+Qed.
+Lemma modes_of_nonempty : forall lib sp it, In it (iters lib sp) -> modes_of lib sp (fst it) <> [].
+Proof.
+  intros lib sp it H. destruct (iters_in _ _ _ H) as [m [Hm [Hf ->]]]. cbn.
+  intros E. assert (Hin : In m (modes_of lib sp (m_baud m))) by (apply modes_of_in; split; [assumption | split; [reflexivity | assumption]]).
+  rewrite E in Hin. destruct Hin.
+Qed.
+Lemma iters_nil_iff : forall lib sp, iters lib sp = [] <-> forall m, In m lib -> fits sp m = false.
+Proof.
+  intros lib sp. split.
+  - intros E m Hm. destruct (fits sp m) eqn:F; [|reflexivity].
+    destruct (iters_repr lib sp m Hm F) as [it [Hit _]]. rewrite E in Hit. destruct Hit.
+  - intros H. destruct (iters lib sp) as [|it t] eqn:E; [reflexivity|].
+    destruct (iters_in lib sp it) as [m [Hm [Hf _]]]; [rewrite E; now left|].
+    rewrite (H m Hm) in Hf. discriminate.
+Qed.
+
+(* ---- the loop refines "first decisive pair in exploration order" ---- *)
+Lemma last_cons : forall A (x : A) t d, List.last (x :: t) d = match t with [] => x | _ => List.last t d end.
+Proof. intros A x [|y t] d; reflexivity. Qed.
+
+Lemma try_modes_spec : forall margin P it ms rest lst,
+  first_decisive margin P (map (pair it) ms ++ rest) lst =
+  match try_modes margin (fun _ => P it) it ms with
+  | Found m => Selected it m
+  | Stop o => o
+  | Continue => first_decisive margin P rest (match ms with [] => lst | _ => Some (it, List.last ms dummy_mode) end)
+  end.
+Proof.
+  intros margin P it. induction ms as [|m t IH]; intros rest lst; [reflexivity|].
+  cbn [map app first_decisive try_modes].
+  change (eval1 margin (fun _ => P it) it m) with (eval1 margin P it m).
+  destruct (eval1 margin P it m); try reflexivity.
+  rewrite IH. destruct (try_modes margin (fun _ => P it) it t); try reflexivity.
+  rewrite last_cons. destruct t; reflexivity.
+Qed.
+
+Definition explore_of (lib : list mode) (sp : Q) (its : list iter) : list (iter * mode) :=
+  flat_map (fun it => map (pair it) (modes_of lib sp (fst it))) its.
+
+Lemma loop_pure : forall margin P lib sp its lst,
+  (forall it, In it its -> modes_of lib sp (fst it) <> []) -> (its <> [] \/ lst <> None) ->
+  loop_st (pure_step P) margin lib sp tt its lst = (first_decisive margin P (explore_of lib sp its) lst, tt).
+Proof.
+  intros margin P lib sp. induction its as [|it t IH]; intros lst Hne Hl.
+  - cbn. destruct lst as [[i m]|]; [reflexivity|]. destruct Hl as [H|H]; congruence.
+  - cbn [loop_st explore_of flat_map pure_step]. fold (explore_of lib sp t).
+    rewrite try_modes_spec.
+    destruct (try_modes margin (fun _ => P it) it (modes_of lib sp (fst it))); try reflexivity.
+    apply IH; [intros i Hi; apply Hne; now right|].
+    right. destruct (modes_of lib sp (fst it)) eqn:E; [|discriminate].
+    exfalso. apply (Hne it (or_introl eq_refl)). exact E.
+Qed.
+
+(* mode_loop_spec, functional form *)
+Lemma mode_loop_first_decisive : forall margin P lib sp,
+  mode_loop margin P lib sp = first_decisive margin P (explore lib sp) None.
+Proof.
+  intros margin P lib sp. unfold mode_loop, mode_loop_st, explore. fold (explore_of lib sp (iters lib sp)).
+  destruct (iters lib sp) as [|it t] eqn:E; [reflexivity|].
+  rewrite loop_pure; [reflexivity | | left; discriminate].
+  intros i Hi. apply modes_of_nonempty. rewrite E. exact Hi.
+Qed.
+
+(* ---- what the first decisive pair is ---- *)
+Definition fails margin P (x : iter * mode) : Prop := eval1 margin P (fst x) (snd x) = Fail.
+
+Lemma fd_selected : forall margin P l lst it m,
+  first_decisive margin P l lst = Selected it m ->
+  exists l1 l2, l = l1 ++ (it, m) :: l2 /\ Forall (fails margin P) l1 /\ eval1 margin P it m = Pass.
+Proof.
+  intros margin P. induction l as [|[i x] t IH]; intros lst it m H; cbn in H.
+  - destruct lst as [[? ?]|]; discriminate.
+  - destruct (eval1 margin P i x) eqn:E; try discriminate.
+    + inversion H; subst. exists [], t. repeat split; [constructor | exact E].
+    + destruct (IH _ _ _ H) as [l1 [l2 [-> [F Pm]]]]. exists ((i, x) :: l1), l2.
+      repeat split; [constructor; [exact E | exact F] | exact Pm].
+Qed.
+Lemma fd_selected_conv : forall margin P l1 l2 lst it m,
+  Forall (fails margin P) l1 -> eval1 margin P it m = Pass ->
+  first_decisive margin P (l1 ++ (it, m) :: l2) lst = Selected it m.
+Proof.
+  intros margin P. induction l1 as [|[i x] t IH]; intros l2 lst it m F Pm; cbn.
+  - now rewrite Pm.
+  - inversion F as [|? ? Fx Ft]; subst. unfold fails in Fx. cbn in Fx. rewrite Fx. now apply IH.
+Qed.
+Lemma last_default : forall A (l : list A) d d', l <> [] -> List.last l d = List.last l d'.
+Proof.
+  induction l as [|x t IH]; intros d d' H; [congruence|].
+  rewrite !last_cons. destruct t; [reflexivity|]. apply IH. discriminate.
+Qed.
+Lemma fd_nomode : forall margin P l lst it m,
+  first_decisive margin P l lst = NoFeasibleMode it m ->
+  Forall (fails margin P) l /\ List.last (map Some l) lst = Some (it, m).
+Proof.
+  intros margin P. induction l as [|[i x] t IH]; intros lst it m H; cbn in H.
+  - destruct lst as [[? ?]|]; inversion H; subst. split; [constructor | reflexivity].
+  - destruct (eval1 margin P i x) eqn:E; try discriminate.
+    destruct (IH _ _ _ H) as [F L]. split; [constructor; [exact E | exact F]|].
+    cbn [map]. rewrite last_cons. destruct t as [|p t']; [exact L|].
+    rewrite <- L. apply last_default. discriminate.
+Qed.
+Lemma fd_nomode_conv : forall margin P l lst,
+  Forall (fails margin P) l ->
+  first_decisive margin P l lst =
+    match List.last (map Some l) lst with Some (it, m) => NoFeasibleMode it m | None => NoBaudrate end.
+Proof.
+  intros margin P. induction l as [|[i x] t IH]; intros lst F.
+  - cbn. destruct lst as [[? ?]|]; reflexivity.
+  - cbn [first_decisive].
+    inversion F as [|? ? Fx Ft]; subst. unfold fails in Fx. cbn in Fx. rewrite Fx. rewrite (IH _ Ft).
+    destruct t as [|p t']; [reflexivity|].
+    change (map Some ((i, x) :: p :: t')) with (Some (i, x) :: map Some (p :: t')). rewrite last_cons.
+    rewrite (last_default _ (map Some (p :: t')) (Some (i, x)) lst); [reflexivity | discriminate].
+Qed.
+Lemma fd_nobaud : forall margin P l, first_decisive margin P l None = NoBaudrate -> l = [].
+Proof.
+  intros margin P l H. destruct l as [|[i x] t]; [reflexivity|]. exfalso. cbn in H.
+  destruct (eval1 margin P i x) eqn:E; try discriminate.
+  assert (G : forall l lst, lst <> None -> first_decisive margin P l lst <> NoBaudrate).
+  { induction l as [|[i' x'] t' IH]; intros lst Hl; cbn.
+    - destruct lst as [[? ?]|]; [discriminate | congruence].
+    - destruct (eval1 margin P i' x'); try discriminate. apply IH. discriminate. }
+  apply (G t (Some (i, x))); [discriminate | exact H].
+Qed.
+
+(* membership in the exploration order *)
+Lemma explore_in : forall lib sp it m,
+  In (it, m) (explore lib sp) <-> In it (iters lib sp) /\ In m lib /\ m_baud m == fst it /\ fits sp m = true.
+Proof.
+  intros lib sp it m. unfold explore. rewrite in_flat_map. split.
+  - intros [i [Hi Hm]]. apply in_map_iff in Hm. destruct Hm as [x [E Hx]]. inversion E; subst.
+    apply modes_of_in in Hx. tauto.
+  - intros [Hi Hm]. exists it. split; [exact Hi|]. apply in_map_iff. exists m. split; [reflexivity|].
+    apply modes_of_in. exact Hm.
+Qed.
+Lemma explore_nil_iff : forall lib sp, explore lib sp = [] <-> forall m, In m lib -> fits sp m = false.
+Proof.
+  intros lib sp. rewrite <- iters_nil_iff. unfold explore. split.
+  - intros E. destruct (iters lib sp) as [|it t] eqn:I; [reflexivity|]. exfalso.
+    cbn in E. apply app_eq_nil in E. destruct E as [E _]. apply map_eq_nil in E.
+    apply (modes_of_nonempty lib sp it); [rewrite I; now left | exact E].
+  - intros ->. reflexivity.
+Qed.
+
+(* structure of a selection inside the nested exploration *)
+Lemma fd_flat_selected : forall margin P lib sp its lst it m,
+  first_decisive margin P (explore_of lib sp its) lst = Selected it m ->
+  exists i1 i2 ms1 ms2, its = i1 ++ it :: i2 /\ modes_of lib sp (fst it) = ms1 ++ m :: ms2 /\
+    Forall (fun i => Forall (fun x => eval1 margin P i x = Fail) (modes_of lib sp (fst i))) i1 /\
+    Forall (fun x => eval1 margin P it x = Fail) ms1 /\ eval1 margin P it m = Pass.
+Proof.
+  intros margin P lib sp. induction its as [|i t IH]; intros lst it m H.
+  - cbn in H. destruct lst as [[? ?]|]; discriminate.
+  - cbn [explore_of flat_map] in H. fold (explore_of lib sp t) in H.
+    assert (G : forall ms pre lst0, modes_of lib sp (fst i) = pre ++ ms ->
+              Forall (fun x => eval1 margin P i x = Fail) pre ->
+              first_decisive margin P (map (pair i) ms ++ explore_of lib sp t) lst0 = Selected it m ->
+              exists i1 i2 ms1 ms2, i :: t = i1 ++ it :: i2 /\ modes_of lib sp (fst it) = ms1 ++ m :: ms2 /\
+                Forall (fun i => Forall (fun x => eval1 margin P i x = Fail) (modes_of lib sp (fst i))) i1 /\
+                Forall (fun x => eval1 margin P it x = Fail) ms1 /\ eval1 margin P it m = Pass).
+    { induction ms as [|x ms IHm]; intros pre lst0 Epre Fpre Hs.
+      - cbn in Hs. destruct (IH _ _ _ Hs) as [i1 [i2 [ms1 [ms2 [-> [E2 [F1 [F2 Pm]]]]]]]].
+        exists (i :: i1), i2, ms1, ms2. repeat split; try assumption.
+        constructor; [|exact F1]. rewrite Epre, app_nil_r. exact Fpre.
+      - cbn [map app first_decisive] in Hs. destruct (eval1 margin P i x) eqn:E; try discriminate.
+        + inversion Hs; subst. exists [], t, pre, ms. repeat split; try assumption. constructor.
+        + apply (IHm (pre ++ [x]) (Some (i, x))); [now rewrite <- app_assoc | | exact Hs].
+          apply Forall_app. split; [exact Fpre | constructor; [exact E | constructor]]. }
+    apply (G (modes_of lib sp (fst i)) [] lst); [reflexivity | constructor | exact H].
+Qed.
+
+Lemma sorted_app_after : forall A (R : A -> A -> Prop) l1 x l2,
+  StronglySorted R (l1 ++ x :: l2) -> Forall (R x) l2.
+Proof.
+  induction l1 as [|y t IH]; intros x l2 H; cbn in H; inversion H; subst; [assumption | now apply IH].
+Qed.
+Lemma sorted_app_before : forall A (R : A -> A -> Prop) l1 x l2,
+  StronglySorted R (l1 ++ x :: l2) -> Forall (fun y => R y x) l1.
+Proof.
+  induction l1 as [|y t IH]; intros x l2 H; cbn in H; [constructor|].
+  inversion H as [|? ? Ht Hy]; subst. constructor; [|now apply IH with l2].
+  rewrite Forall_forall in Hy. apply Hy. apply in_or_app. right. now left.
+Qed.
+
+(* mode_loop_spec, readable form for a selection: the selected mode fits the spacing, belongs to the baud rate of the
+   deciding propagation and clears the threshold STRICTLY; every fitting mode of a higher baud rate was tried under the
+   propagation of its own (baud, offset) and failed; every fitting mode of the same baud rate with a higher
+   (bit rate, offset) key was tried under the same propagation and failed *)
+Lemma mode_loop_selected : forall margin P lib sp it m,
+  mode_loop margin P lib sp = Selected it m ->
+  In m lib /\ fits sp m = true /\ m_baud m == fst it /\ In it (iters lib sp) /\ eval1 margin P it m = Pass /\
+  (forall m', In m' lib -> fits sp m' = true -> fst it < m_baud m' ->
+     exists it', In it' (iters lib sp) /\ iter_eqb (m_baud m', m_off m') it' = true /\ eval1 margin P it' m' = Fail) /\
+  (forall m', In m' lib -> fits sp m' = true -> m_baud m' == fst it -> key_gtb m' m = true ->
+     eval1 margin P it m' = Fail).
+Proof.
+  intros margin P lib sp it m H. rewrite mode_loop_first_decisive in H. unfold explore in H.
+  fold (explore_of lib sp (iters lib sp)) in H.
+  destruct (fd_flat_selected _ _ _ _ _ _ _ _ H) as [i1 [i2 [ms1 [ms2 [Ei [Em [F1 [F2 Pm]]]]]]]].
+  assert (Hit : In it (iters lib sp)) by (rewrite Ei; apply in_or_app; right; now left).
+  assert (Hm : In m (modes_of lib sp (fst it))) by (rewrite Em; apply in_or_app; right; now left).
+  apply modes_of_in in Hm. destruct Hm as [Hml [Hmb Hmf]].
+  repeat split; try assumption.
+  - (* higher baud rate *)
+    intros m' Hl Hf Hb. destruct (iters_repr lib sp m' Hl Hf) as [it' [Hi' Ee]].
+    exists it'. repeat split; try assumption.
+    apply iter_eqb_iff in Ee. cbn in Ee. destruct Ee as [Eb Eo].
+    pose proof (iters_sorted lib sp) as S. rewrite Ei in S, Hi'.
+    assert (Hm' : In m' (modes_of lib sp (fst it'))) by (apply modes_of_in; repeat split; assumption).
+    apply in_app_or in Hi'. destruct Hi' as [Hi'|[<-|Hi']].
+    + rewrite Forall_forall in F1. specialize (F1 it' Hi'). rewrite Forall_forall in F1. now apply F1.
+    + exfalso. rewrite <- Eb in Hb. exact (Qlt_irrefl _ Hb).
+    + exfalso. apply sorted_app_after in S. rewrite Forall_forall in S. specialize (S it' Hi').
+      apply iter_gtb_iff in S. unfold iter_gt in S. rewrite <- Eb in S. lra.
+  - (* same baud rate, higher key *)
+    intros m' Hl Hf Hb Hk.
+    assert (Hm' : In m' (modes_of lib sp (fst it))) by (apply modes_of_in; repeat split; assumption).
+    pose proof (modes_of_sorted lib sp (fst it)) as S. rewrite Em in S, Hm'.
+    apply in_app_or in Hm'. destruct Hm' as [Hm'|[<-|Hm']].
+    + rewrite Forall_forall in F2. now apply F2.
+    + rewrite key_gtb_irrefl in Hk. discriminate.
+    + apply sorted_app_after in S. rewrite Forall_forall in S. rewrite (S m' Hm') in Hk. discriminate.
+Qed.
+
+(* ... for a request blocked NO_FEASIBLE_MODE: something fits, every explored pair failed, the mode reported is the
+   last one explored *)
+Lemma mode_loop_nomode : forall margin P lib sp it m,
+  mode_loop margin P lib sp = NoFeasibleMode it m ->
+  Forall (fails margin P) (explore lib sp) /\ explore lib sp <> [] /\
+  List.last (explore lib sp) (it, m) = (it, m) /\ In (it, m) (explore lib sp).
+Proof.
+  intros margin P lib sp it m H. rewrite mode_loop_first_decisive in H.
+  destruct (fd_nomode _ _ _ _ _ _ H) as [F L]. split; [exact F|].
+  destruct (explore lib sp) as [|x t] eqn:E; [cbn in L; discriminate|].
+  split; [discriminate|].
+  assert (G : forall (l : list (iter * mode)) d d', l <> [] -> List.last (map Some l) d = Some d' -> List.last l d' = d' /\ In d' l).
+  { induction l as [|y l' IH]; intros d d' Hne HL; [congruence|].
+    destruct l' as [|z l''].
+    - cbn in HL. inversion HL; subst. split; [reflexivity | now left].
+    - assert (HL' : List.last (map Some (z :: l'')) d = Some d') by exact HL.
+      destruct (IH d d' ltac:(discriminate) HL') as [A B]. split; [exact A | now right]. }
+  apply (G (x :: t) None (it, m)); [discriminate | exact L].
+Qed.
+Lemma mode_loop_nomode_conv : forall margin P lib sp,
+  Forall (fails margin P) (explore lib sp) -> explore lib sp <> [] ->
+  exists it m, mode_loop margin P lib sp = NoFeasibleMode it m /\ In (it, m) (explore lib sp).
+Proof.
+  intros margin P lib sp F Hne. rewrite mode_loop_first_decisive, (fd_nomode_conv _ _ _ _ F).
+  assert (G : forall (l : list (iter * mode)) d, l <> [] -> exists x, List.last (map Some l) d = Some x /\ In x l).
+  { induction l as [|y l' IH]; intros d Hl; [congruence|]. destruct l' as [|z l''].
+    - exists y. split; [reflexivity | now left].
+    - destruct (IH d ltac:(discriminate)) as [x [A B]]. exists x. split; [exact A | now right]. }
+  destruct (G _ None Hne) as [[it m] [A B]]. rewrite A. eauto.
+Qed.
+(* ... NO_FEASIBLE_BAUDRATE_WITH_SPACING exactly when no mode of the library fits the spacing *)
+Lemma mode_loop_nobaud : forall margin P lib sp,
+  mode_loop margin P lib sp = NoBaudrate <-> forall m, In m lib -> fits sp m = false.
+Proof.
+  intros margin P lib sp. rewrite <- explore_nil_iff, mode_loop_first_decisive. split.
+  - apply fd_nobaud.
+  - intros ->. reflexivity.
+Qed.
+(* completeness of a selection: the first pair of the exploration order that passes is the one selected *)
+Lemma mode_loop_selected_conv : forall margin P lib sp l1 l2 it m,
+  explore lib sp = l1 ++ (it, m) :: l2 -> Forall (fails margin P) l1 -> eval1 margin P it m = Pass ->
+  mode_loop margin P lib sp = Selected it m.
+Proof.
+  intros margin P lib sp l1 l2 it m E F Pm. rewrite mode_loop_first_decisive, E. now apply fd_selected_conv.
+Qed.
+
+(* what Pass / Fail mean: strict comparison of the rounded worst-channel metric with OSNR + margin *)
+Lemma eval1_pass : forall margin P it m, eval1 margin P it m = Pass <->
+  exists f x, P it m = Some f /\ metric (m_tab m) f = Ok x /\ ~ met_le x (MFin (m_osnr m + margin)).
+Proof.
+  intros margin P it m. unfold eval1, passes_auto. split.
+  - destruct (P it m) as [f|] eqn:EP; [|discriminate]. destruct (metric (m_tab m) f) as [x|e] eqn:EM; [|discriminate].
+    destruct (met_lt (MFin (m_osnr m + margin)) x) eqn:E; [|discriminate].
+    intros _. exists f, x. split; [reflexivity|]. split; [exact EM|]. now apply met_lt_true_iff.
+  - intros [f [x [-> [-> H]]]]. apply met_lt_true_iff in H. now rewrite H.
+Qed.
+Lemma eval1_fail : forall margin P it m, eval1 margin P it m = Fail <->
+  exists f x, P it m = Some f /\ metric (m_tab m) f = Ok x /\ met_le x (MFin (m_osnr m + margin)).
+Proof.
+  intros margin P it m. unfold eval1, passes_auto. split.
+  - destruct (P it m) as [f|] eqn:EP; [|discriminate]. destruct (metric (m_tab m) f) as [x|e] eqn:EM; [|discriminate].
+    destruct (met_lt (MFin (m_osnr m + margin)) x) eqn:E; [discriminate|].
+    intros _. exists f, x. split; [reflexivity|]. split; [exact EM|]. now apply met_lt_false_iff.
+  - intros [f [x [-> [-> H]]]]. apply met_lt_false_iff in H. now rewrite H.
+Qed.
+
+(* the deciding propagation is the selected mode's own one when the modes of a baud rate share their offset;
+   in general it need not be (a mode can be judged on a propagation made with a sibling's offset) *)
+Lemma selected_own_offset : forall margin P lib sp it m,
+  (forall a b, In a lib -> In b lib -> m_baud a == m_baud b -> m_off a == m_off b) ->
+  mode_loop margin P lib sp = Selected it m -> iter_eqb it (m_baud m, m_off m) = true.
+Proof.
+  intros margin P lib sp it m U H. destruct (mode_loop_selected _ _ _ _ _ _ H) as [Hl [Hf [Hb [Hi _]]]].
+  destruct (iters_in _ _ _ Hi) as [m0 [H0 [_ ->]]]. cbn in *. apply iter_eqb_iff. cbn.
+  split; [symmetry; exact Hb | apply U; [exact H0 | exact Hl | symmetry; exact Hb]].
+Qed.
+
+(* ====================================================================================================
+   5. the loop with explicit amplifier state
+   ==================================================================================================== *)
+(* repaired model (every propagation starts from the designed state): the loop is the specification-level loop fed
+   with the figures of fresh propagations, and it leaves the path as designed *)
+Lemma loop_st_invariant_state : forall S (step : stepper S) (s0 : S) P margin lib sp,
+  (forall it, step s0 it = (s0, P it)) ->
+  forall its lst, loop_st step margin lib sp s0 its lst = (fst (loop_st (pure_step P) margin lib sp tt its lst), s0).
+Proof.
+  intros S step s0 P margin lib sp Hs. induction its as [|it t IH]; intros lst.
+  - cbn. destruct lst as [[? ?]|]; reflexivity.
+  - cbn [loop_st]. rewrite Hs. change (pure_step P tt it) with (tt, P it). cbn iota.
+    destruct (try_modes margin (fun _ => P it) it (modes_of lib sp (fst it))); try reflexivity.
+    apply IH.
+Qed.
+Lemma loop_repaired : forall load_of conv margin lib sp designed its lst,
+  loop_st (repaired_step load_of conv) margin lib sp designed its lst =
+  (fst (loop_st (pure_step (fresh_provider designed load_of conv)) margin lib sp tt its lst), designed).
+Proof.
+  intros. apply loop_st_invariant_state. intros it. reflexivity.
+Qed.
+Lemma mode_loop_indep : forall load_of conv margin lib sp designed,
+  mode_loop_st (repaired_step load_of conv) margin lib sp designed =
+  (mode_loop margin (fresh_provider designed load_of conv) lib sp, designed).
+Proof.
+  intros. unfold mode_loop, mode_loop_st. destruct (iters lib sp); [reflexivity|]. apply loop_repaired.
+Qed.
+
+(* the code as it is: figures of the successive propagations on the same path objects *)
+Lemma leaky_head : forall p l t, nth_error (leaky_runs p (l :: t)) 0 = nth_error (fresh_runs p (l :: t)) 0.
+Proof. intros p l t. cbn. destruct (run_load p l). reflexivity. Qed.
+(* guard: as long as no propagation changes the state of the path (no amplifier clamps), sharing is harmless *)
+Lemma leaky_eq_fresh_if_stable : forall p ls,
+  (forall l, In l ls -> fst (run_load p l) = p) -> leaky_runs p ls = fresh_runs p ls.
+Proof.
+  intros p. induction ls as [|l t IH]; intros H; [reflexivity|]. cbn.
+  pose proof (H l (or_introl eq_refl)) as E. destruct (run_load p l) as [p' sp] eqn:R. cbn in E. subst p'.
+  cbn. f_equal. apply IH. intros l' Hl'. apply H. now right.
+Qed.
+
+(* ---- witnesses (the statements they refute are in Props/C13.v) ---- *)
+(* a two-amplifier line: trx, add ROADM (-20 dBm = 1/100 mW per channel), booster (gain 100, 10 mW cap), fibre (1/100),
+   preamp (gain 100, 10 mW cap), drop ROADM, trx;  4 channels of 1 mW at the transmitter *)
+Definition w_path : path :=
+  [Trx; Roadm (1 # 100); Edfa 100 10 (1 # 100000); Fiber (1 # 100); Edfa 100 10 (1 # 100000); Roadm (1 # 100); Trx].
+(* the propagation of an iteration: the ROADM targets are raised by the offset (8 dB ~ a factor 6) *)
+Definition w_load (it : iter) : load := mkL 4 1 (if Qeq_bool (snd it) 8 then 6 else 1).
+(* receiver figures: the signal-to-noise ratio of every channel (a monotone stand-in for the dB value), no impairment *)
+Definition w_conv (sp : spectrum) (m : mode) : option figs :=
+  Some (mkF (map (fun c => sig c / nse c) sp) (map (fun _ => 0) sp) (map (fun _ => 0) sp) (map (fun _ => 0) sp)).
+(* m0: 64 GBd, +8 dB offset, unreachable threshold;  m1: 32 GBd, no offset, threshold 400 *)
+Definition w_lib : list mode :=
+  [mkM 0 64 8 400 75 1000000 (mkT [] [] []); mkM 1 32 0 100 (75 # 2) 400 (mkT [] [] [])].
+
+Lemma w_figures_differ :
+  leaky_runs w_path [w_load (64, 8); w_load (32, 0)] <> fresh_runs w_path [w_load (64, 8); w_load (32, 0)].
+Proof. vm_compute. discriminate. Qed.
+Lemma w_decision_differs :
+  fst (mode_loop_st (leaky_step w_load w_conv) 0 w_lib 75 w_path) = NoFeasibleMode (32, 0) (mkM 1 32 0 100 (75 # 2) 400 (mkT [] [] [])) /\
+  mode_loop 0 (fresh_provider w_path w_load w_conv) w_lib 75 = Selected (32, 0) (mkM 1 32 0 100 (75 # 2) 400 (mkT [] [] [])).
+Proof. split; vm_compute; reflexivity. Qed.
+
+(* two modes of one baud rate with different offsets: m1 (-2 dB) is selected on the propagation made with +4 dB *)
+Definition w2_lib : list mode :=
+  [mkM 0 32 4 200 (75 # 2) 60 (mkT [] [] []); mkM 1 32 (-2) 100 (75 # 2) 20 (mkT [] [] [])].
+Definition w2_P : provider := fun it _ => Some (mkF [if Qeq_bool (snd it) 4 then 30 else 10] [0] [0] [0]).
+Lemma w2_foreign_offset :
+  mode_loop 0 w2_P w2_lib 50 = Selected (32, 4) (mkM 1 32 (-2) 100 (75 # 2) 20 (mkT [] [] [])) /\
+  eval1 0 w2_P (32, -2) (mkM 1 32 (-2) 100 (75 # 2) 20 (mkT [] [] [])) = Fail.
+Proof. split; vm_compute; reflexivity. Qed.
